@@ -126,7 +126,15 @@ func udpSocket(proto, addr string, connect bool, sockOptInts []Option[int], sock
 	if connect {
 		err = os.NewSyscallError("connect", unix.Connect(fd, sa))
 	} else {
-		err = os.NewSyscallError("bind", unix.Bind(fd, sa))
+		if err = os.NewSyscallError("bind", unix.Bind(fd, sa)); err != nil {
+			return
+		}
+		// Report the port picked by the kernel when asked to bind to port 0.
+		if udpAddr, ok := netAddr.(*net.UDPAddr); ok && udpAddr.Port == 0 {
+			if port, ok := boundPort(fd); ok {
+				udpAddr.Port = port
+			}
+		}
 	}
 
 	return
